@@ -1023,6 +1023,30 @@ def _combinations(eng, node, it, r=2):
     if isinstance(it, (tuple, list, CList)) and r == 2:
         items = list(it)
         return CList([(items[i], items[j]) for i in range(len(items)) for j in range(i + 1, len(items))])
+    if type(src).__name__ == "DictItems" and type(src.d).__name__ == "SODict" and r == 2 and len(src.d.k.sorts()) == 1:
+        # combinations(d.items(), 2) of an insertion-ordered dict: every pair of distinct keys once, the earlier inserted key first
+        # (a ghost sequence; the order of the pairs among each other is left open)
+        d = src.d
+        eng.dict_keys(d)         # representation invariant of the ordered dict (checked)
+        ks = key_sort_of(d.k)
+        tag = f"comb{eng.counters.get('comb', 0)}"
+        eng.counters["comb"] = eng.counters.get("comb", 0) + 1
+        n = z3.Int(f"{tag}.n")
+        ca = z3.Const(f"{tag}.a", z3.ArraySort(z3.IntSort(), ks))
+        cb = z3.Const(f"{tag}.b", z3.ArraySort(z3.IntSort(), ks))
+        cpos = z3.Function(f"{tag}.pos", ks, ks, z3.IntSort())
+        i = z3.Int("_ci")
+        x, y = z3.Const("_cx", ks), z3.Const("_cy", ks)
+        eng.assume(n >= 0)
+        eng.assume(z3.ForAll([i], z3.Implies(z3.And(0 <= i, i < n), z3.And(d.dom[ca[i]], d.dom[cb[i]], d.pos[ca[i]] < d.pos[cb[i]], cpos(ca[i], cb[i]) == i))))
+        eng.assume(z3.ForAll([x, y], z3.Implies(z3.And(d.dom[x], d.dom[y], d.pos[x] < d.pos[y]),
+                                                z3.And(0 <= cpos(x, y), cpos(x, y) < n, ca[cpos(x, y)] == x, cb[cpos(x, y)] == y))))
+        eng.frame.env["_comb_pos"] = cpos
+        from .types import _select
+        t = TTuple(TTuple(d.k, d.v), TTuple(d.k, d.v))
+        va = [z3.Lambda([i], c[ca[i]]) for c in d.comps]
+        vb = [z3.Lambda([i], c[cb[i]]) for c in d.comps]
+        return SList(t, n, [ca] + va + [cb] + vb)
     if not (isinstance(src, SDict) and r == 2 and len(src.k.sorts()) == 1):
         raise Unsupported("itertools.combinations on this argument")
     ks = key_sort_of(src.k)
